@@ -14,16 +14,22 @@
   * `ExactDomF o`  links followed, `dirs_first`/`files_first` only with `sort_by_name`, and either
                    parents first with exclusive kind filters, or `contents_first` without kind
                    filter and lower depth bound (= `ExactDom` of C08 with `follow = true`);
+  * `ExactDomF2 o` (Lemmas/WalkCF.lean; after the repair of `process`, finding
+                   `contents_first_ignores_filter`) as `ExactDomF`, but `contents_first` (with
+                   `min_depth = 0`) may be combined with `dirs()` / `files()`; for `files()` with the side
+                   condition `FlagsOkFor snap o`: no snapshot entry carries both kind flags;
   * `fuelNeed snap o rootE ≤ f`  the fuel of the model: `fuelNeed` = 3 · (number of entries the
                    walk visits, computed by `sizeF`) + 1.  The real iterator has no fuel; `.hang` of
                    the model with `travFuel` is an artifact where the walk is larger than
                    `travFuel` allows (diamond link chains, see the end of this file).
 -/
 import Rivia.Lemmas.WalkFollow
+import Rivia.Lemmas.WalkCF
 
 namespace Rivia.Props
 open Rivia Rivia.Memfs Rivia.Spec
 open Rivia.Lemmas.WalkF (DomF fuelNeed stepCons specOutcome)
+open Rivia.Lemmas.WalkCF (ExactDomF2 FlagsExcl FlagsOkFor)
 
 /-- the model run to exhaustion with the given fuel: yielded entries (in order), final outcome -/
 def modelRun (snap : Snap) (o : Opts) (rootE : Entry) (fuel : Nat) : List Entry × Outcome Unit :=
@@ -101,7 +107,7 @@ theorem C08F_exact_partial (snap : Snap) (o : Opts) (rootE : Entry) (f : Nat)
     (hwf : SnapWf snap) (hroot : InSnap snap rootE) (hdom : ExactDomF o)
     (hf : fuelNeed snap o rootE ≤ f) :
     modelRun snap o rootE f = specRun snap o rootE := by
-  have h := Lemmas.WalkF.runIter_exact hwf hdom.1 hdom.2.1 hdom.2.2 hroot f hf
+  have h := Lemmas.WalkF.runIter_exact hwf hdom.1 hdom.2.1 hdom.2.2.toW hroot f hf
   simp [modelRun, specRun, h]
 
 /-- the same for `collectEntries` (fuel `travFuel`, the yielded entries are dropped on error),
@@ -113,7 +119,7 @@ theorem C08F_collectEntries_partial (snap : Snap) (o : Opts) (rootE : Entry)
       match entriesSpecF snap o rootE with
       | (ys, none) => .ok ys
       | (_, some k) => .err k :=
-  Lemmas.WalkF.collectEntries_exactF hwf hdom.1 hdom.2.1 hdom.2.2 hroot hfuel
+  Lemmas.WalkF.collectEntries_exactF hwf hdom.1 hdom.2.1 hdom.2.2.toW hroot hfuel
 
 /-- the same at the level of the operation `entries(path)` of the model (`step (.entries p r)` =
     `travM`, which collects the yielded paths and the error): it returns the paths of the walk, in
@@ -124,7 +130,7 @@ theorem C08F_entries_op_partial (env : Env) (p : Str) (r : TravReq) (s : State) 
     (hfuel : fuelNeed snap r.opts rootE ≤ travFuel snap) :
     step env s (.entries p r) =
       (.ok (.trav ((entriesSpecF snap r.opts rootE).1.map (·.path)) (entriesSpecF snap r.opts rootE).2), s) :=
-  Lemmas.WalkF.travM_exact habs hent hwf hroot hdom.1 hdom.2.1 hdom.2.2 hfuel
+  Lemmas.WalkF.travM_exact habs hent hwf hroot hdom.1 hdom.2.1 hdom.2.2.toW hfuel
 
 /-- no endless descent: with links followed the traversal of ANY well-formed snapshot ends (the
     model never reports `.hang` once the fuel covers the size of the walk, which is finite) -/
@@ -204,6 +210,79 @@ theorem C08F_filter_respected (snap : Snap) (o : Opts) (rootE : Entry) (f : Nat)
     · rw [hdl] at h; cases h
     · exact h
 
+/-! ### c'. the same on the wider domain `ExactDomF2` (after the repair): `contents_first` with a
+  kind filter now equals the spec walk, links followed -/
+
+/-- `ExactDomF2` contains `ExactDomF` (where the side condition holds trivially) -/
+theorem C08F_exactDomF_sub (snap : Snap) (o : Opts) (hdom : ExactDomF o) : ExactDomF2 o ∧ FlagsOkFor snap o := by
+  refine ⟨⟨hdom.1, hdom.2.1, Lemmas.WalkCF.DomF.to2 hdom.2.2⟩, ?_⟩
+  intro hcf hf
+  rcases hdom.2.2 with h | h
+  · rw [h.1] at hcf; cases hcf
+  · rw [h.2.2.1] at hf; cases hf
+
+/-- STRENGTHENED central theorem: as `C08F_exact_partial`, on `ExactDomF2` — in particular for
+    `contents_first` together with `dirs()` or `files()` (and `min_depth = 0`) -/
+theorem C08F_exact2_partial (snap : Snap) (o : Opts) (rootE : Entry) (f : Nat)
+    (hwf : SnapWf snap) (hroot : InSnap snap rootE) (hdom : ExactDomF2 o) (hx : FlagsOkFor snap o)
+    (hf : fuelNeed snap o rootE ≤ f) :
+    modelRun snap o rootE f = specRun snap o rootE := by
+  have h := Lemmas.WalkCF.runIter_exact2 hwf hdom.1 hdom.2.1 hdom.2.2 hx hroot f hf
+  simp [modelRun, specRun, h]
+
+theorem C08F_collectEntries2_partial (snap : Snap) (o : Opts) (rootE : Entry)
+    (hwf : SnapWf snap) (hroot : InSnap snap rootE) (hdom : ExactDomF2 o) (hx : FlagsOkFor snap o)
+    (hfuel : fuelNeed snap o rootE ≤ travFuel snap) :
+    collectEntries snap o rootE =
+      match entriesSpecF snap o rootE with
+      | (ys, none) => .ok ys
+      | (_, some k) => .err k :=
+  Lemmas.WalkCF.collectEntries_exactF2 hwf hdom.1 hdom.2.1 hdom.2.2 hx hroot hfuel
+
+theorem C08F_entries_op2_partial (env : Env) (p : Str) (r : TravReq) (s : State) (k : FsPath) (rootE : Entry)
+    (snap : Snap) (habs : absM env p s = (.ok k, s)) (hent : entriesOf s k = .ok (rootE, snap))
+    (hwf : SnapWf snap) (hroot : InSnap snap rootE) (hdom : ExactDomF2 r.opts) (hx : FlagsOkFor snap r.opts)
+    (hfuel : fuelNeed snap r.opts rootE ≤ travFuel snap) :
+    step env s (.entries p r) =
+      (.ok (.trav ((entriesSpecF snap r.opts rootE).1.map (·.path)) (entriesSpecF snap r.opts rootE).2), s) :=
+  Lemmas.WalkCF.travM_exact2 habs hent hwf hroot hdom.1 hdom.2.1 hdom.2.2 hx hfuel
+
+/-- nothing a filter rejects is yielded — now also with `contents_first`, links followed -/
+theorem C08F_filter_respected2 (snap : Snap) (o : Opts) (rootE : Entry) (f : Nat)
+    (hwf : SnapWf snap) (hroot : InSnap snap rootE) (hdom : ExactDomF2 o) (hx : FlagsOkFor snap o)
+    (hf : fuelNeed snap o rootE ≤ f) :
+    ∀ y ∈ (modelRun snap o rootE f).1,
+      (y = present o rootE ∨ ∃ p n raw, alLookup (p ++ [n]) snap = some raw ∧ y = present o raw) ∧
+      (o.files = true → y.file = true) ∧ (o.dirs = true → y.dir = true) ∧
+      ∃ dy, o.minDepth ≤ dy ∧ (dy = 0 ∨ dy ≤ o.maxDepth) := by
+  rw [C08F_exact2_partial snap o rootE f hwf hroot hdom hx hf]
+  intro y hy
+  obtain ⟨h1, dy, _, h3, h4⟩ := Lemmas.WalkF.mem_walkF o _ _ _ _ y hy
+  simp only [selected, Bool.and_eq_true, decide_eq_true_eq, Bool.or_eq_true, Bool.not_eq_true'] at h4
+  refine ⟨h1, ?_, ?_, dy, h4.1.1, h3⟩
+  · intro hfl; rcases h4.1.2 with h | h
+    · rw [hfl] at h; cases h
+    · exact h
+  · intro hdl; rcases h4.2 with h | h
+    · rw [hdl] at h; cases h
+    · exact h
+
+/-- the new part of the domain on a witness (`/t/`, `/t/a/`, `/t/l -> /t/a`):
+    `dirs().contents_first().follow(true)` yields the directories after their contents, the link
+    presented as its target; `files()` instead yields nothing (no directory slips through);
+    model and spec evaluated independently -/
+theorem C08F_witness_contents_first_filter :
+    ExactDomF2 { follow := true, contentsFirst := true, dirs := true } ∧
+    ¬ ExactDomF { follow := true, contentsFirst := true, dirs := true } ∧
+    FlagsExcl snapS ∧
+    modelRun snapS { follow := true, contentsFirst := true, dirs := true } rootS 12 =
+      ([dirS, linkS.doFollow true, rootS], .ok ()) ∧
+    entriesSpecF snapS { follow := true, contentsFirst := true, dirs := true } rootS =
+      ([dirS, linkS.doFollow true, rootS], none) ∧
+    modelRun snapS { follow := true, contentsFirst := true, files := true } rootS 12 = ([], .ok ()) ∧
+    entriesSpecF snapS { follow := true, contentsFirst := true, files := true } rootS = ([], none) ∧
+    fuelNeed snapS { follow := true, contentsFirst := true, dirs := true } rootS ≤ 12 := by decide
+
 /-- non-vacuity: the hypotheses hold of concrete snapshots with a link loop / a link to a sibling;
     both option domains are inhabited -/
 example : SnapWf snapL ∧ InSnap snapL rootL ∧ SnapWf snapS ∧ InSnap snapS rootS ∧
@@ -250,10 +329,11 @@ theorem C08F_witness_model :
   --   The real iterator has no fuel: it terminates after 2^k steps (resource blow-up, not a hang).
   -- * a closed-form decidable condition on the snapshot implying `fuelNeed ≤ travFuel`
   --   (e.g. a bound on the number of directory links): not proved; `fuelNeed` itself is computable.
-  -- * what is yielded for the option combinations outside `ExactDomF` (`contents_first` with kind
-  --   filters / `min_depth`), where the output differs from the walk already without links
-  --   (C08 b.): only termination is proved (`C08F_terminates_all_options`); and nothing for
-  --   grouping flags without `sort_by_name` (outside `OrdOk`; the builder never produces it).
+  -- * what is yielded for the option combinations outside `ExactDomF2` (`contents_first` with
+  --   `min_depth > 0`), where the output differs from the walk already without links
+  --   (C08 b., finding `contents_first_min_depth_order`, not repaired): only termination is proved
+  --   (`C08F_terminates_all_options`); and nothing for grouping flags without `sort_by_name`
+  --   (outside `OrdOk`; the builder never produces it).
   -- * the consumers with a `pre_op` / failing `step` (`chmodM`, `copyM`): not covered (`noPre`,
   --   collecting consumer only).
 -/
